@@ -15,14 +15,13 @@ import copy
 import math
 import random
 import time
-from concurrent.futures import ThreadPoolExecutor
 
 import numpy as np
 
 from .. import tlc, ftable
 from ..common import Report, MachineryError, seed, quiet
 from . import cyclo12 as cy
-from .tbf_common import cyclo_library_check, fast_dump_states, TOL
+from .tbf_common import cyclo_library_check, fast_dump_states, validate_parallel, TOL
 
 PROPS = {
     "C01": dict(level="model_checking",
@@ -387,25 +386,6 @@ def make_record(rep, rng, thorough):
     return rec
 
 
-def validate_parallel(recs, name, nchunks, timeout=3000):
-    """TLC validation of the records in several JVMs at once (the clauses recompute the Wigner-Seitz search per record)"""
-    if not recs:
-        return dict(distinct=0, generated=0, wall_s=0.0, mode="record-validation"), {}
-    size = max(1, -(-len(recs) // nchunks))
-    parts = [(k, recs[k:k + size]) for k in range(0, len(recs), size)]
-    t0 = time.time()
-    with ThreadPoolExecutor(max_workers=len(parts)) as ex:
-        res = list(ex.map(lambda p: ftable.validate_records("WignerSeitzRec.tla", ftable.REC_CFG, p[1], f"{name}_{p[0]}", timeout=timeout), parts))
-    tot = dict(distinct=0, generated=0, wall_s=round(time.time() - t0, 2), mode="record-validation")
-    bad = {}
-    for (k, _), (st, b) in zip(parts, res):
-        tot["distinct"] += st["distinct"]
-        tot["generated"] += st["generated"]
-        for i, cl in b.items():
-            bad[k + i] = cl
-    return tot, bad
-
-
 def numeric_only(rep, rng, ncases):
     """random real lattices / centres (round trip only: the back ends and the replica weights, no exact oracle)"""
     from wannierberri.fourier.rvectors import Rvectors
@@ -475,19 +455,19 @@ def check(pid, tier):
         ws_configs = [
             ("c01_ws_1d", dict(GRAMS="{111444, 211444, 311444, 411444}", MESHES="{111, 211, 311, 411, 611}", TOLS="{1, 2}", DIM=1, DMAX=6, STEP=1, BOXDIM=1, LEMMADIM=1, BIGBOX=6)),
             ("c01_ws_2d", dict(GRAMS="{111444, 121444, 141444, 221344, 221544, 331344, 341744, 431144, 231544, 441244, 241644, 441744, 341444}",
-                               MESHES="{111, 211, 121, 221, 321, 231, 331, 411, 421, 241, 431, 441, 611, 161}", TOLS="{1, 2}", DIM=2, DMAX=6, STEP=1, BOXDIM=2, LEMMADIM=2)),
-            ("c01_ws_2d_bigbox", dict(GRAMS="{431144, 341744, 441744, 231544, 241644, 221344}", MESHES="{111, 211, 121, 221, 321, 441}", TOLS="{1}", DIM=2,
-                                      DMAX=6, STEP=1, BOXDIM=2, LEMMADIM=2, BIGBOX=5)),
+                               MESHES="{111, 211, 121, 221, 321, 231, 331, 411, 421, 611}", TOLS="{1}", DIM=2, DMAX=6, STEP=1, BOXDIM=2, LEMMADIM=2)),
+            ("c01_ws_2d_bigbox", dict(GRAMS="{431144, 341744, 441744, 231544, 241644, 221344}", MESHES="{111, 211, 121, 221, 321, 441}", TOLS="{2}", DIM=2,
+                                      DMAX=6, STEP=2, BOXDIM=2, LEMMADIM=2, BIGBOX=5)),
             ("c01_ws_2d_m6", dict(GRAMS=G2, MESHES="{621, 361, 661}", TOLS="{1}", DIM=2, DMAX=6, STEP=2, BOXDIM=2, LEMMADIM=2)),
-            ("c01_ws_lemma", dict(GRAMS=G2, MESHES="{211, 221, 321, 411}", TOLS="{1, 2}", DIM=2, DMAX=6, STEP=3, BOXDIM=3, LEMMADIM=2)),
+            ("c01_ws_lemma", dict(GRAMS="{111444, 221344, 341744, 431144}", MESHES="{211, 221, 321, 411}", TOLS="{1, 2}", DIM=2, DMAX=6, STEP=3, BOXDIM=3, LEMMADIM=2)),
             ("c01_ws_lemma1", dict(GRAMS=G1, MESHES="{211, 311, 411}", TOLS="{1}", DIM=1, DMAX=6, STEP=1, BOXDIM=3, LEMMADIM=1)),
-            ("c01_ws_loose", dict(GRAMS="{111444, 221344, 341744, 421444}", MESHES="{211, 221, 321}", TOLS="{3, 4}", DIM=2, DMAX=6, STEP=2, BOXDIM=3, LEMMADIM=3)),
-            ("c01_ws_3d", dict(GRAMS="{111444, 322333, 322543, 211444}", MESHES="{222, 212, 232}", TOLS="{1}", DIM=3, DMAX=4, STEP=2, BOXDIM=3, LEMMADIM=3)),
+            ("c01_ws_loose", dict(GRAMS="{111444, 221344, 341744, 421444}", MESHES="{211, 221, 321}", TOLS="{3, 4}", DIM=2, DMAX=6, STEP=3, BOXDIM=3, LEMMADIM=3)),
+            ("c01_ws_3d", dict(GRAMS="{111444, 322333, 322543, 211444}", MESHES="{222, 212, 232}", TOLS="{1}", DIM=3, DMAX=2, STEP=2, BOXDIM=3, LEMMADIM=3)),
         ]
     else:
         ws_configs = [
-            ("c01_ws_1d", dict(GRAMS=G1, MESHES="{111, 211, 311, 411}", TOLS="{1}", DIM=1, DMAX=6, STEP=1, BOXDIM=1, LEMMADIM=1, BIGBOX=5)),
-            ("c01_ws_2d", dict(GRAMS="{111444, 221344, 341744, 431144, 231544}", MESHES="{211, 221, 321, 411}", TOLS="{1}", DIM=2, DMAX=6, STEP=2,
+            # 1-D problems are contained: rectangular Gram matrices with meshes (n, 1, 1) and shifts (x, 0, 0)
+            ("c01_ws_2d", dict(GRAMS="{111444, 221344, 341744, 431144, 231544}", MESHES="{111, 211, 221, 321, 411}", TOLS="{1}", DIM=2, DMAX=6, STEP=2,
                                BOXDIM=2, LEMMADIM=2)),
             ("c01_ws_full", dict(GRAMS="{221344, 341744}", MESHES="{221}", TOLS="{2, 4}", DIM=2, DMAX=2, STEP=2, BOXDIM=3, LEMMADIM=2)),
         ]
@@ -504,7 +484,7 @@ def check(pid, tier):
         rep.add_tlc(name, st)
         ndone = 0
         t0 = time.time()
-        for s in ftable.dump_states(st):
+        for s in fast_dump_states(st, fast_vars=("C", "Cm")):
             if s["phase"] != "done":
                 continue
             ndone += 1
@@ -623,7 +603,7 @@ def check(pid, tier):
         if r is not None:
             recs.append(r)
             rep.case(("rec", len(recs)), nontrivial=True)
-    stv, bad = validate_parallel(recs, "c01", 8)
+    stv, bad = validate_parallel("WignerSeitzRec.tla", recs, "c01", 8)
     rep.add_tlc("c01_records", stv)
     rep.add_traces(len(recs))
     n_ambrec = 0
@@ -655,7 +635,7 @@ def check(pid, tier):
                     e[0][0] += 1                 # wrong matrix element
     b3 = copy.deepcopy(recs[0])
     b3["pairs"][0] = b3["pairs"][0][1:]          # a replica missing
-    _, bb = validate_parallel([b1, b2, b3], "c01_selftest", 1)
+    _, bb = validate_parallel("WignerSeitzRec.tla", [b1, b2, b3], "c01_selftest", 1)
     if any(not [c for c in bb.get(i, []) if c != "unambiguous"] for i in range(3)):
         raise MachineryError(f"binding self-test failed: corrupted records accepted ({bb})")
     rep.part("binding_selftest", corrupted_records_rejected={str(k): v for k, v in bb.items()})
